@@ -1697,7 +1697,12 @@ struct REnd {
 #[derive(Clone, Default)]
 struct RConn {
     h: usize,
-    st: String, // none | pending | ok | dead
+    p: u64,
+    st: String, // pending | ok | refused | cancelled
+    /// step at which the connector gave up; its request may still sit in the listener queue
+    cancel_at: Option<u64>,
+    /// the request can no longer be in the listener queue (accepted, refused, or popped as dead)
+    out_of_queue: bool,
     e1: Option<REnd>,
     e2: Option<REnd>,
 }
@@ -1794,7 +1799,10 @@ fn main_tcp_random(args: &[String]) {
                 }
                 // ---- connectors
                 let next = conns.len() as u64 + 1;
-                if next <= nconn && rng.random_bool(0.35) {
+                // requests that may sit in a listener queue stay below tcp_capacity (beyond: documented panic)
+                let room = |p: u64| conns.values().filter(|k| k.p == p && !k.out_of_queue).count() < cap;
+                let want_p: u64 = if rng.random_bool(0.8) { 1 } else { 2 };
+                if next <= nconn && rng.random_bool(0.35) && room(want_p) {
                     let kind = rng.random_range(0..10);
                     // remote client / the server's own host by name / by 127.0.0.1 / nobody's address
                     let (h, dst, dh, lo) = if kind < 6 && nh > 1 {
@@ -1806,10 +1814,10 @@ fn main_tcp_random(args: &[String]) {
                     } else {
                         (if nh > 1 { 1 } else { nh }, if v6 { "fd00::99".to_string() } else { "10.99.99.99".to_string() }, 0, false)
                     };
-                    let p = if rng.random_bool(0.8) { 1 } else { 2 };
+                    let p = want_p;
                     run.cmd(h, TCmd::Connect { c: next, dst, dh, p, lo });
                     conn_host.insert(next, h);
-                    conns.insert(next, RConn { h, st: "pending".into(), ..Default::default() });
+                    conns.insert(next, RConn { h, p, st: "pending".into(), ..Default::default() });
                     last_send = st;
                 }
                 for (c, k) in conns.iter() {
@@ -1865,7 +1873,7 @@ fn main_tcp_random(args: &[String]) {
                 if !run.links().is_empty() && lmax > lmin {
                     nreorder += 1;
                 }
-                random_update(&run.last_results, &mut conns);
+                random_update(&run.last_results, &mut conns, st, 2 * lmax / tick + 3);
                 nops += run.last_results.len() as u64;
                 // quiet: nothing on any link, and (loopback deliveries take one tick) two steps since the last send
                 if run.links().is_empty() && st >= last_send + 3 {
@@ -1898,7 +1906,7 @@ fn main_tcp_random(args: &[String]) {
                     }
                 }
                 run.step();
-                random_update(&run.last_results, &mut conns);
+                random_update(&run.last_results, &mut conns, steps + 100, 0);
             }
             if fault_here {
                 nfault += 1;
@@ -1934,8 +1942,17 @@ fn main_tcp_random(args: &[String]) {
 }
 
 /// Harness bookkeeping: which connections / ends / halves exist (from the results the calls returned).
-fn random_update(results: &[Value], conns: &mut BTreeMap<u64, RConn>) {
+fn random_update(results: &[Value], conns: &mut BTreeMap<u64, RConn>, st: u64, margin: u64) {
     for e in results {
+        // an accept that stays pending has emptied the queue: dead requests that had arrived are gone
+        if e["ev"].as_str() == Some("accept") && e["res"].as_str() == Some("pending") {
+            let p = e["p"].as_u64().unwrap_or(0);
+            for k in conns.values_mut() {
+                if k.p == p && k.cancel_at.map(|t| t + margin <= st).unwrap_or(false) {
+                    k.out_of_queue = true;
+                }
+            }
+        }
         let c = e["c"].as_u64().unwrap_or(0);
         let Some(k) = conns.get_mut(&c) else { continue };
         let s = e["s"].as_u64().unwrap_or(0);
@@ -1946,12 +1963,19 @@ fn random_update(results: &[Value], conns: &mut BTreeMap<u64, RConn>) {
                     k.st = "ok".into();
                     k.e1 = Some(REnd { r: true, w: true, acc: 0 });
                 }
-                _ => k.st = "dead".into(),
+                _ => {
+                    k.st = "refused".into();
+                    k.out_of_queue = true;
+                }
             },
-            "cancel" => k.st = "dead".into(),
+            "cancel" => {
+                k.st = "cancelled".into();
+                k.cancel_at = Some(st);
+            }
             "accept" => {
                 if e["res"].as_str() == Some("ok") {
                     k.e2 = Some(REnd { r: true, w: true, acc: 0 });
+                    k.out_of_queue = true;
                 }
             }
             "write" => {
